@@ -1447,7 +1447,7 @@ ANCHORS = {
     "make_addr", "make_addr_from_int", "get_addr_pattern", "_ip_to_str", "dump_to_file", "_anonymize_match", "anonymize_ip_addr",
     "replace_matching_item", "_anonymize_value", "_extract_enclosing_text", "_check_sensitive_item_format", "_split_line",
     "generate_default_sensitive_item_regexes", "anonymize_as_numbers", "get_as_number_pattern", "_generate_as_number_replacement",
-    "_generate_as_number_regex", "_generate_as_number_replacement_map", "_lookup_anon_word", "_get_or_generate_sensitive_word_replacement",
+    "_lookup_anon_word", "_get_or_generate_sensitive_word_replacement",
     "_generate_sensitive_word_regex", "_generate_conflicting_reserved_word_list", "juniper_decrypt", "juniper_nonrandom_encrypt",
     "_gap", "_gap_decode", "_gap_encode", "_nibble", "_fixedc", "anonymize_files", "anonymize_io",
     "main", "_parse_args", "host_bits",
